@@ -72,6 +72,7 @@ class Profile:
         self.p_keep = 0.2
         self.p_settings_field = 0.2  # each optional settings field
         self.p_segment_override = 0.15
+        self.p_dot_components = 0.03
         self.p_classes = 0.3
         self.p_addr = 0.5
         self.p_toplevel = 0.35
@@ -121,6 +122,9 @@ def gen_path(r, prof, pool, depth=None):
         return c
     n = r.below(3) if depth is None else depth
     parts = [comp(r.pick(DIRS)) for _ in range(n)] + [comp(r.pick(pool))]
+    if r.chance(prof.p_dot_components):
+        # a `.` component: leading (`./src/a.o`) or interior (`src/./a.o`) - the same file spelled differently
+        parts.insert(r.below(len(parts)), ".")
     return "/".join(parts)
 
 
@@ -302,6 +306,10 @@ def gen_doc(r, prof, opts=None):
         sres = gen_overrides(r, prof, seg, prof.p_segment_override, g_alloc, g_noload)
         alloc, noload = sres.get("alloc", g_alloc), sres.get("noload", g_noload)
         subs = sres.get("subs", g_subs)
+        if "subs" not in sres and g_subs and r.chance(prof.p_segment_override + 0.05):
+            # an explicitly empty table at segment level switches the global one off
+            seg["sections_subgroups"] = {}
+            subs = {}
         if not prof.wellformed and r.chance(0.3) and (alloc + noload):
             # violate a well-formedness rule on purpose (finding zones)
             which = r.below(3)
@@ -348,6 +356,8 @@ def gen_doc(r, prof, opts=None):
         for f in ["sections_start_alignment", "sections_end_alignment"]:
             if r.chance(prof.p_align * 0.4) and listed:
                 seg[f] = {s: pow2(r, 0, 8) for s in r.sample(listed, 1 + r.below(2))}
+            elif settings.get(f) and r.chance(prof.p_segment_override + 0.05):
+                seg[f] = {}         # explicitly empty: no per-section alignment for this segment
         seg["files"] = [gen_file(r, prof, 0, listed, subsecs) for _ in range(1 + r.below(prof.max_files))]
         if r.chance(0.3):
             seg["dir"] = gen_path(r, prof, DIRS, depth=r.below(2))
